@@ -16,3 +16,7 @@ func vIteInt64(c bool, x, y int64) int64 {
 	}
 	return y
 }
+
+// vSetMapOrder: engine-only control of Go map iteration order (0 forward,
+// 1 reversed insertion order); natively Go randomises by itself.
+func vSetMapOrder(k int) {}
